@@ -414,6 +414,42 @@ func ruleOPTCODEC(c *Ctx) {
 			c.Bad(rule, key, lp.Header.Instrs[0].Pos(), "the loop over a lookahead row's (terminal, action) pairs no longer stores into the row buffer")
 			continue
 		}
+		// a pair's cell is a real entry: error (-1), shift or rule - never the unfilled sentinel,
+		// which the defaultReduce pass overwrites with the default reduction
+		if uvv, _ := sentinelPhis(f); uvv != nil {
+			for _, ins := range sb.Instrs {
+				st, ok := ins.(*ssa.Store)
+				if !ok {
+					continue
+				}
+				if ia, ok := st.Addr.(*ssa.IndexAddr); !ok || func() bool { ms, ok := ia.X.(*ssa.MakeSlice); return !ok || vpath(ms.Len) != "terms" }() {
+					continue
+				}
+				usesSentinel := false
+				var walk func(v ssa.Value, d int)
+				walk = func(v ssa.Value, d int) {
+					if d > 4 {
+						return
+					}
+					if v == uvv {
+						usesSentinel = true
+						return
+					}
+					if ph, ok := v.(*ssa.Phi); ok {
+						for _, e := range ph.Edges {
+							walk(e, d+1)
+						}
+					}
+				}
+				walk(st.Val, 0)
+				key2 := "lalr.Optimize:row-pair-not-sentinel"
+				if usesSentinel {
+					c.Bad(rule, key2, st.Pos(), "a (terminal, action) pair of a lookahead row can store the unfilled sentinel: under defaultReduce that cell receives the default reduction, so a nonassoc error (or whatever class was mapped to it) turns into a reduction")
+				} else {
+					c.Ok(rule, key2, st.Pos(), "cells written for (terminal, action) pairs are -1, a shift code or a rule index, never the unfilled sentinel")
+				}
+			}
+		}
 		skipped := false
 		for _, s := range lp.Header.Succs {
 			if lp.Body[s] && s != sb && reachesWithout(s, lp.Header, sb) {
